@@ -4,7 +4,7 @@ import sys, os, json, shutil
 prop, k, silent, reporting = sys.argv[1:5]
 note = sys.argv[5] if len(sys.argv) > 5 else ""
 src = os.environ.get("SRC", f"/tmp/mut/out7/{prop}")
-dst = f"/verif/benign/{prop}-b{k}"
+dst = f"/verif/benign/{prop}-b{int(k) + int(os.environ.get('BK_OFFSET', '0'))}"
 os.makedirs(dst, exist_ok=True)
 shutil.copy(f"{src}/mutant{k}.diff", f"{dst}/patch.diff")
 shutil.copy(f"{src}/demo{k}.rs", f"{dst}/demo.rs")
